@@ -598,6 +598,9 @@ type sigInitial struct {
 	Repo string
 }
 
+// sigLong is a command of 5.2 kB (the canonical payload crosses 4 kB and 8 kB with the env below)
+var sigLong = strings.Repeat("make target-0123456789 && ", 200)
+
 var sigInitials = []sigInitial{
 	{"minimal", `{command: echo hi}`, nil, "https://example.com/repo.git"},
 	{"rich", `
@@ -630,6 +633,12 @@ matrix:
   adjustments:
     - with: {"": lint, os: linux}
 `, map[string]string{"CI": "true"}, "repo"},
+	{"single-dim", `
+command: t
+matrix:
+  setup: {os: [linux, darwin]}
+`, nil, "r"},
+	{"long", "command: \"" + sigLong + "\"\nenv: {L: \"" + sigLong[:3000] + "\"}\n", map[string]string{"P": sigLong[:2000]}, "r"},
 	{"adjust-only", `
 commands: [one, two]
 matrix:
